@@ -1136,6 +1136,38 @@ def cooling_formulas(P, rep, rule="EXPR.cooling"):
         else:
             rep.violation(rule, "gaussian plume returns %s" % val, F.loc, F.qn, str(val)[:160], "expected %s" % want, key=rule + "|gaussian", witness="point off the plume axis")
     rep.floor(rule, n_ok, 4, "cooling / plume closed forms")
+    # the two oceanic plate models sum the same series: they truncate it after the same number of terms (sibling agreement;
+    # the number itself is not prescribed here)
+    terms = {}
+    for nm in ("PlateModel", "PlateModelConstantAge"):
+        G = P.func("WorldBuilder::Features::OceanicPlateModels::Temperature::%s::get_temperature" % nm)
+        symn = norm.Sym(P, G, inline_locals=True)
+        for lp in G.walk():
+            if lp.get("k") == "ForStmt" and lp["c"][0] is not None and lp["c"][0].get("k") == "DeclStmt" and sc(lp["c"][1]) is not None:
+                iv = lp["c"][0]["c"][0]
+                c0 = sc(lp["c"][1])
+                body_txt = norm.render(P, lp["c"][3])
+                if "sin" not in body_txt or c0.get("k") != "BinaryOperator" or c0.get("op") not in ("<", "<=") or not astq.is_ref_to(c0["c"][0], iv.get("r")):
+                    continue
+                try:
+                    start = int(symn(iv["c"][0]))
+                    bound = int(symn(c0["c"][1]))
+                except Exception:
+                    continue
+                terms[nm] = (bound - start + (1 if c0["op"] == "<=" else 0), G, lp)
+    rule2 = rule + ".terms"
+    rep.rule(rule2, "the plate model and the constant-age plate model evaluate the same Fourier series and truncate it after the same number of terms")
+    if len(terms) == 2:
+        (n1, G1, l1), (n2, G2, l2) = terms["PlateModel"], terms["PlateModelConstantAge"]
+        if n1 == n2:
+            rep.ok(rule2, "both oceanic plate models sum %d terms" % n1, G1.nloc(l1), G1.qn)
+        else:
+            few, Gf, lf = (n1, G1, l1) if n1 < n2 else (n2, G2, l2)
+            rep.violation(rule2, "the plate model sums %d terms, the constant-age plate model %d" % (n1, n2), Gf.nloc(lf), Gf.qn, "",
+                          "one of the two copies of the series is cut shorter: for young plates its truncation error is visible",
+                          key=rule2, witness="a plate of a few 10 kyr: the two models with the same age differ beyond the truncation error of the longer sum")
+    else:
+        rep.unknown(rule2, "series loops found in %s only" % sorted(terms))
     return extracted, syms
 
 
